@@ -263,7 +263,10 @@ ADDED = {
     "C06": " Also: HashClient stacks that give up on their server while it comes back (socket bookkeeping clauses only); the repository's "
            "integration tests as a trace source (see C01).",
     "C08": " What escapes a pooled call (capacity error or the call's own error, never an error raised inside pool.py), calls rejected "
-           "before any exchange next to ordinary calls (two preemptions), and 'a connection is given back only by its holder'.",
+           "before any exchange next to ordinary calls (two preemptions), and 'a connection is given back only by its holder'. "
+           "spec/PoolInd.tla states the same statement-level steps for threads that go on forever and Apalache checks that its invariant is "
+           "inductive (Init => IndInv; IndInv and Next => IndInv'): the safety clauses hold in executions of any length (3 threads; thorough "
+           "also 4); TLC checks the same shape facts (IndShape) on the bounded model.",
     "C09": " Also: every public operation x every single-fault plan on the pooled stacks, misc operations in the sequences, calls that fail "
            "without a connection fault (illegal key, dict-style read of an absent key), and 'nothing idle-expired stays pooled after a checkout'.",
     "C10": " Interruption points now include: the request half sent, the error-path close() before / after the descriptor is closed, the "
